@@ -137,7 +137,18 @@ def main():
     if only:
         import re
         cases = [c for c in cases if re.search(only, c.tag)]
-    return runner.run_property('C05', cases, tier=tier, chunk=1, keep_all_too=True,
+    sys.path.insert(0, os.path.dirname(os.path.abspath(__file__)))
+    import check_kernel
+    konly = bool(only and only.startswith('VHarness'))
+    krc, kev = check_kernel.run(tier) if (konly or not only) else (0, None)
+    if konly:
+        return krc
+
+    def post(ev, rep):
+        if kev:
+            ev['coverage']['kernel_checks'] = kev['coverage']
+            ev['violations'] += kev['violations']
+    return krc | runner.run_property('C05', cases, tier=tier, chunk=1, keep_all_too=True, post=post,
                                title='every corpus program linked with dead-code elimination and with every declaration kept alive; both outputs must satisfy the same reference on every path',
                                bounds={'inputs': 'all int16 pairs and selectors', 'corpus': '%d programs reaching code through interfaces, method values/expressions, embedding, generics, local types, initialisers with side effects, go:linkname (both directions), other packages, go/defer entry points, function tables' % len(cases),
                                        'outside': 'programs outside the corpus; reflection (reflect does not build in this sandbox)'},
